@@ -86,6 +86,8 @@ pub enum Op {
     Commit { actor: usize, dt: i64, adt: i64, with_file: bool },
     Branch { name: String, from: Option<usize> },
     Checkout { branch: usize },
+    /// check out the most recently created live branch
+    CheckoutNewest,
     Detach { commit: usize },
     Merge { others: Vec<usize>, actor: usize, dt: i64 },
     FastForward { branch: usize },
@@ -481,12 +483,15 @@ impl World {
                     Err(e) => herr(format!("branch -D {name}: {e}")),
                 }
             }
-            Op::Checkout { branch } => {
+            Op::Checkout { .. } | Op::CheckoutNewest => {
                 let live = self.live_branches();
                 if live.is_empty() {
                     return Ok("skip: no branches".into());
                 }
-                let bi = live[*branch % live.len()];
+                let bi = match op {
+                    Op::Checkout { branch } => live[*branch % live.len()],
+                    _ => *live.last().unwrap(),
+                };
                 let name = self.branches[bi].name.clone();
                 self.auto_clean()?;
                 match self.git(&["checkout", "-q", &name, "--"], None, None) {
